@@ -458,4 +458,160 @@ theorem runTicks_wf (s : State) (ticks : List Tick) (hd : Disciplined ticks) (h 
     apply ih _ (fun t ht => hd t (List.mem_cons_of_mem _ ht))
     exact run_wf s tk.2 (fun o ho => okAt_reporting tk.1 o (hd tk List.mem_cons_self o ho)) h
 
+/-! ### The tick structure: the `_tick_time` field is fresh at every phase -/
+
+theorem execEngineStmt_param (e : Env) (s : Stmt) : (execEngineStmt e s).param = e.param ∧
+    (execEngineStmt e s).wall = e.wall ∧ (execEngineStmt e s).interpField = e.interpField := by
+  cases s <;> simp [execEngineStmt]
+
+/-- Soundness of the abstract check `freshOK`: at the call named `phase` the parameter is still the tick's time,
+    the field has been assigned from it (unless the call is structural), a handed-down time argument evaluates to
+    it, and the check holds for the remaining statements (so phases chain). -/
+theorem advance_fresh (phase : String) (t : Time) :
+    ∀ (stmts : List Stmt) (e : Env) (f : Bool), freshOK f stmts = true → e.param = t →
+      (f = true → e.engineField = t) →
+      ∀ e' a rest, advance phase stmts e = some (e', a, rest) →
+        e'.param = t ∧ e'.wall = e.wall ∧ e'.interpField = e.interpField ∧
+        (structuralCall phase = false → e'.engineField = t) ∧
+        (timeCallee phase = true → ∃ x, a = some x ∧ evalArg e' 0 0 x = t) ∧
+        ∃ f', freshOK f' rest = true ∧ (f' = true → e'.engineField = t) := by
+  intro stmts
+  induction stmts with
+  | nil => intro e f _ _ _ e' a rest h; simp [advance] at h
+  | cons s rest ih =>
+    intro e f hok hp hf e' a rest' h
+    cases s with
+    | call n a0 =>
+      simp only [freshOK, Bool.and_eq_true, Bool.or_eq_true] at hok
+      obtain ⟨⟨h1, h2⟩, h3⟩ := hok
+      simp only [advance] at h
+      split at h
+      · rename_i hn
+        simp only [Option.some.injEq, Prod.mk.injEq] at h
+        obtain ⟨rfl, rfl, rfl⟩ := h
+        subst hn
+        refine ⟨hp, rfl, rfl, ?_, ?_, f, h3, hf⟩
+        · intro hs
+          rcases h1 with h1 | h1
+          · rw [hs] at h1; cases h1
+          · exact hf h1
+        · intro ht
+          rcases h2 with (h2 | h2) | h2
+          · simp [ht] at h2
+          · simp only [decide_eq_true_eq] at h2
+            exact ⟨.param, h2, by simpa [evalArg] using hp⟩
+          · simp only [decide_eq_true_eq] at h2
+            exact ⟨.engineField, h2.1, by simpa [evalArg] using hf h2.2⟩
+      · exact ih e f h3 hp hf e' a rest' h
+    | assign tgt rhs =>
+      simp only [freshOK] at hok
+      simp only [advance] at h
+      have := ih (execEngineStmt e (.assign tgt rhs)) (decide (rhs = .param)) hok
+        (by simpa [execEngineStmt] using hp)
+        (by
+          intro hd
+          simp only [decide_eq_true_eq] at hd
+          subst hd
+          simpa [execEngineStmt, evalArg] using hp) e' a rest' h
+      simpa [execEngineStmt] using this
+    | stamp rhs =>
+      simp only [freshOK, Bool.and_eq_true] at hok
+      simp only [advance] at h
+      have := ih (execEngineStmt e (.stamp rhs)) f hok.2 (by simpa [execEngineStmt] using hp)
+        (by simpa [execEngineStmt] using hf) e' a rest' h
+      simpa [execEngineStmt] using this
+
+/-- any number of successive non-structural phases: parameter and field are the tick's time at the last one -/
+theorem advanceMany_fresh (t : Time) :
+    ∀ (phases : List String) (stmts : List Stmt) (e : Env) (f : Bool), freshOK f stmts = true → e.param = t →
+      (f = true → e.engineField = t) → (∀ p ∈ phases, structuralCall p = false) → phases ≠ [] →
+      ∀ e' rest, advanceMany phases stmts e = some (e', rest) →
+        e'.param = t ∧ e'.engineField = t ∧ e'.wall = e.wall := by
+  intro phases
+  induction phases with
+  | nil => intro _ _ _ _ _ _ _ h; exact absurd rfl h
+  | cons p ps ih =>
+    intro stmts e f hok hp hf hs _ e' rest h
+    simp only [advanceMany] at h
+    cases ha : advance p stmts e with
+    | none => simp [ha] at h
+    | some r =>
+      obtain ⟨e1, a, rest1⟩ := r
+      simp only [ha] at h
+      obtain ⟨h1, h2, _, h4, _, f', h6, h7⟩ := advance_fresh p t stmts e f hok hp hf e1 a rest1 ha
+      have he1 := h4 (hs p List.mem_cons_self)
+      cases ps with
+      | nil =>
+        simp only [advanceMany, Option.some.injEq, Prod.mk.injEq] at h
+        obtain ⟨rfl, rfl⟩ := h
+        exact ⟨h1, he1, h2⟩
+      | cons q qs =>
+        have := ih rest1 e1 f' h6 h1 h7 (fun x hx => hs x (List.mem_cons_of_mem _ hx)) (by simp) e' rest h
+        exact ⟨this.1, this.2.1, this.2.2.trans h2⟩
+
+/-- the bulk stamp of the first tick evaluates to the tick's time -/
+theorem advanceStamp_fresh (t : Time) :
+    ∀ (stmts : List Stmt) (e : Env) (f : Bool), freshOK f stmts = true → e.param = t →
+      (f = true → e.engineField = t) →
+      ∀ e' rhs rest, advanceStamp stmts e = some (e', rhs, rest) → evalArg e' 0 0 rhs = t := by
+  intro stmts
+  induction stmts with
+  | nil => intro e f _ _ _ e' rhs rest h; simp [advanceStamp] at h
+  | cons s rest ih =>
+    intro e f hok hp hf e' rhs rest' h
+    cases s with
+    | call n a0 =>
+      simp only [freshOK, Bool.and_eq_true] at hok
+      simp only [advanceStamp] at h
+      exact ih (execEngineStmt e (.call n a0)) f hok.2 (by simpa [execEngineStmt] using hp)
+        (by simpa [execEngineStmt] using hf) e' rhs rest' h
+    | assign tgt r =>
+      simp only [freshOK] at hok
+      simp only [advanceStamp] at h
+      exact ih (execEngineStmt e (.assign tgt r)) (decide (r = .param)) hok
+        (by simpa [execEngineStmt] using hp)
+        (by
+          intro hd
+          simp only [decide_eq_true_eq] at hd
+          subst hd
+          simpa [execEngineStmt, evalArg] using hp) e' rhs rest' h
+    | stamp r =>
+      simp only [freshOK, Bool.and_eq_true, Bool.or_eq_true, decide_eq_true_eq] at hok
+      simp only [advanceStamp, Option.some.injEq, Prod.mk.injEq] at h
+      obtain ⟨rfl, rfl, rfl⟩ := h
+      rcases hok.1 with h1 | h1
+      · subst h1; simpa [evalArg] using hp
+      · obtain ⟨h1, h2⟩ := h1
+        subst h1; simpa [evalArg] using hf h2
+
+theorem enterInterp_fresh (stmts : List Stmt) (h : interpOK stmts = true) (e : Env) (arg : Time) :
+    (enterInterp stmts e arg).interpField = arg ∧ (enterInterp stmts e arg).param = e.param ∧
+      (enterInterp stmts e arg).engineField = e.engineField ∧ (enterInterp stmts e arg).wall = e.wall := by
+  have key : ∀ (l : List Stmt) (e' : Env),
+      (l.all fun s => match s with | .assign _ rhs => rhs = .param | _ => true) = true →
+      e'.interpField = arg →
+      (l.foldl (execInterpStmt arg) e').interpField = arg ∧ (l.foldl (execInterpStmt arg) e').param = e'.param ∧
+      (l.foldl (execInterpStmt arg) e').engineField = e'.engineField ∧
+      (l.foldl (execInterpStmt arg) e').wall = e'.wall := by
+    intro l
+    induction l with
+    | nil => intro e' _ h'; exact ⟨h', rfl, rfl, rfl⟩
+    | cons s rest ih =>
+      intro e' hall h'
+      simp only [List.all_cons, Bool.and_eq_true] at hall
+      simp only [List.foldl_cons]
+      cases s with
+      | assign tgt rhs =>
+        have hr : rhs = .param := by simpa using hall.1
+        subst hr
+        have := ih (execInterpStmt arg e' (.assign tgt .param)) hall.2 (by simp [execInterpStmt, evalArg])
+        simpa [execInterpStmt] using this
+      | stamp r => simpa [execInterpStmt] using ih e' hall.2 h'
+      | call n a => simpa [execInterpStmt] using ih e' hall.2 h'
+  match stmts, h with
+  | .assign tgt .param :: rest, h =>
+    simp only [interpOK] at h
+    have := key rest (execInterpStmt arg e (.assign tgt .param)) h (by simp [execInterpStmt, evalArg])
+    simpa [enterInterp, execInterpStmt] using this
+
 end OPM.Tags
